@@ -16,7 +16,8 @@ def convert(src, dst):
             k, rest = m.group(1), m.group(2).split()
             if k == "BEGIN":
                 d = dict(x.split("=") for x in rest)
-                out.append({"e": "begin", "valgrind": int(d["valgrind"]), "aes": int(d["aes"]), "lens": [int(x) for x in d["lens"].split(",")]})
+                out.append({"e": "begin", "valgrind": int(d["valgrind"]), "aes": int(d["aes"]), "lens": []})
+            elif k == "LENS": out[0]["lens"] += [int(x) for x in rest[0].split(",")]
             elif k == "OP": out.append({"e": "op", "op": rest[0], "len": int(rest[1])})
             elif k == "END": out.append({"e": "end", "op": rest[0], "len": int(rest[1])})
             elif k == "SKIP": out.append({"e": "skip", "op": rest[0]})
